@@ -4,10 +4,29 @@
 // IWYU pragma: friend "rlbox_.*\.hpp"
 
 #include <cstdint>
+#include <limits>
+#include <type_traits>
 
 #include "rlbox_types.hpp"
 
 namespace rlbox::detail {
+
+// Checks that the byte offset |count| * stride is small enough that adding it
+// to, or subtracting it from, a pointer cannot wrap around the address space
+// and land back inside the memory region the pointer started in
+template<typename T_Int>
+inline bool ptr_offset_fits_address_space(T_Int count, size_t stride)
+{
+  static_assert(std::is_integral_v<T_Int>);
+  uintmax_t magnitude = static_cast<uintmax_t>(count);
+  if constexpr (std::is_signed_v<T_Int>) {
+    if (count < 0) {
+      magnitude = uintmax_t(0) - static_cast<uintmax_t>(count);
+    }
+  }
+  const uintmax_t limit = (std::numeric_limits<uintptr_t>::max() >> 1) / stride;
+  return magnitude <= limit;
+}
 
 // Checks that a given range is either entirely in a sandbox or entirely
 // outside
